@@ -16,6 +16,7 @@ func init() {
 		Explanation: "Decided (structural necessary conditions, dependency.Provider, all paths): R1 every push on the resolution stack is popped - by exactly the pushed slot: stack[:len-1] or stack[:n] with n read before the push - on every path to every return of Get (a failed or optional resolution leaves no name behind); R2 an instance produced by a factory is returned with a nil error only after it was stored in the instance table under the requested name; R3 tables are consulted in the order instances, factories, default factories, each only on the miss edge of the previous; R4 Get freezes the provider (Block) before it reads any table, and every definition method tests the frozen flag before any table write; R5 every store into the instance table of a value taken from a default table is confined to the miss edges of both explicit tables for that name; R6 every definition writes its table only on the miss edge of a lookup of the same name in that table (plus the explicit-table lookups that make explicit win); R7 in InjectTo the optional marker is recomputed for every field (not loop-carried), a failed optional field continues, a failed required field returns the error, and the extra injectors run after the field loop with their error returned; R8 the cycle scan visits the whole resolution stack. " +
 			"Added in round 2: R7 applies the per-field-flag clause to every implementer of app.Injector (datascope.Injector, MapInjector, ...: no branch in the field loop tests a boolean carried over from earlier fields) and requires that no branch taken before Get in Provider.InjectTo depends on provider state (no negative cache); R9 outside package dependency the library defines services only through SetDefault/AddDefaultFactory, never Set/AddFactory (a built-in in an explicit slot cannot be overridden by the application). " +
 			"Added in round 5: R10 every write to provider state made by Get and the functions it calls (Block and the resolution stack apart) is followed only by successful returns — a failed resolution leaves no negative cache or half-registered instance behind; R4 also counts a table read made by a private helper (defined(name)) as a read at its call site: none before Block. " +
+			"Added in round 7: R7's 'no branch before Get depends on provider state' follows the condition into same-package helpers (isDefined(name) in front of Get misses default instances, which only Get's Block folds in). " +
 			"NOT decided: behaviour of arbitrary user factory graphs (factories are user code), reflection-level type compatibility of injected values.",
 	})
 }
@@ -1341,7 +1342,7 @@ func ruleInjectorSiblings(c *Ctx, inject, get *ssa.Function) {
 				return
 			}
 		}
-		for _, o := range Origins(iff.Cond, FlowOpts{}) {
+		for _, o := range append(Origins(iff.Cond, FlowOpts{}), Origins(iff.Cond, FlowOpts{Interproc: 2})...) {
 			if o.Kind == "field" && strings.HasPrefix(o.Name, "dependency.Provider.") {
 				if _, isStr := o.Val.Type().Underlying().(*types.Basic); isStr && o.Val.Type().Underlying().(*types.Basic).Kind() == types.String {
 					continue
